@@ -96,6 +96,11 @@ KeyHandlerCallable = Callable[
 ]
 
 
+def _default_save_before(event: KeyPressEvent) -> bool:
+    """Default `save_before`: snapshot the buffer before every invocation."""
+    return True
+
+
 class Binding:
     """
     Key binding: (key sequence + handler + filter).
@@ -252,7 +257,7 @@ class KeyBindings(KeyBindingsBase):
         filter: FilterOrBool = True,
         eager: FilterOrBool = False,
         is_global: FilterOrBool = False,
-        save_before: Callable[[KeyPressEvent], bool] = (lambda e: True),
+        save_before: Callable[[KeyPressEvent], bool] = _default_save_before,
         record_in_macro: FilterOrBool = True,
     ) -> Callable[[T], T]:
         """
@@ -296,7 +301,11 @@ class KeyBindings(KeyBindingsBase):
                             filter=func.filter & to_filter(filter),
                             eager=to_filter(eager) | func.eager,
                             is_global=to_filter(is_global) | func.is_global,
-                            save_before=func.save_before,
+                            save_before=(
+                                func.save_before
+                                if save_before is _default_save_before
+                                else save_before
+                            ),
                             record_in_macro=func.record_in_macro,
                         )
                     )
